@@ -1056,123 +1056,62 @@ def cases_utts(ctx):
 
 
 # =============================================================================================
-# genuine defects of the unchanged tree seen by these contracts (see the builder's report)
+# defects these contracts found in the pinned tree, all repaired since (fix: commits 068efe7..b62ef4d in
+# /repo). Nothing is open, so FINDINGS / KNOWN_MATCH are empty and every failure is a violation. The
+# smallest witness of each former finding is kept as a named regression case (clause C12.regress.fixed):
+# each must satisfy its clause's contract now.
 
-
-def _cfg(case):
-    return case.get("cfg", {}) if isinstance(case, dict) else {}
-
-
-def _k_unpack(case, msg):
-    c = _cfg(case)
-    return (c.get("suppress_alis", False) or not c.get("suppress_uttids", True)) and "values to unpack" in msg
-
-
-def _k_soseos_written(case, msg):
-    c = _cfg(case)
-    return (c.get("sos") is not None or c.get("eos") is not None) and any(k is not None for k in case.get("history", [])) and "[stored WITH the data set's sos/eos]" in msg
-
-
-def _k_soseos_empty2d(case, msg):
-    c = _cfg(case)
-    return (c.get("sos") is not None or c.get("eos") is not None) and "IndexError" in msg and any("ref" in u and u["ref"]["s"] == [0, 3] for u in case["utts"])
-
-
-def _k_soseos_uint8(case, msg):
-    c = _cfg(case)
-    return (c.get("sos") is not None or c.get("eos") is not None) and "255" in msg and any("ref" in u and u["ref"]["d"] == "uint8" and len(u["ref"]["s"]) == 2 for u in case["utts"])
-
-
-def _k_tokens_only(case, msg):
-    return bool(_cfg(case).get("tokens_only")) and any("ref" in u and len(u["ref"]["s"]) == 2 for u in case["utts"])
-
-
-def _k_load_empty(case, msg):
-    r = case["ref"]
-    return r["s"][0] == 0 and (case["sos"] is not None or case["eos"] is not None) and ("IndexError" in msg or msg.startswith("reading"))
-
-
-def _case_fix(case):
-    return None if case.get("mode") != "fix" else (1 if case.get("k") is None else case["k"])
-
-
-
-
-def _rows(utts):
-    for u in utts:
-        r = u.get("ref")
-        if r and len(r["s"]) == 2 and r["s"][1] == 3:
-            for i in range(r["s"][0]):
-                yield r["v"][3 * i: 3 * i + 3]
-
-
-def _k_rcount_emptyseg(case, msg):
-    stored = spec_step(case["utts"], _case_fix(case), {})[1]  # what is stored when the report is made
-    return "rcount" in msg and "differs from the recount" in msg and any(a == b and a >= 0 for _, a, b in _rows(stored))
-
-
-def _k_total_tokens(case, msg):
-    refs = [u["ref"] for u in case["utts"] if "ref" in u]
-    return bool(refs) and all(r["s"][0] == 0 for r in refs) and "total_tokens" in msg and "differs from the recount" in msg
-
-
-def _k_fix0(case, msg):
-    return case.get("mode") == "fix" and case.get("k") == 0 and spec_step(case["utts"], None, {})[0] and not _k_rcount_emptyseg(case, msg) and not _k_total_tokens(case, msg)
-
-
-_OK = sp("float32", [2, 2])
-FINDINGS = []
+FINDINGS = []  # nothing open on the current tree
 KNOWN_MATCH = {}
 
+_OK = sp("float32", [2, 2])
+_STRICT, _FIX0, _FIX1 = [None], [0, None, 0], [1, None, 1]
+REGRESSIONS = [
+    # (name, fixing commit, clause whose checker judges it, what used to fail, witness)
+    ("KF-C12-1 suppress_alis", "068efe7", "C12.val.iff", "validation raised 'values to unpack' for data sets built with suppress_alis=True",
+     {"tags": ["feat:ok"], "utts": [utt("u0", _OK, None, None)], "cfg": {"suppress_alis": True}, "history": _STRICT}),
+    ("KF-C12-1 suppress_uttids", "068efe7", "C12.fix.sticks", "validation raised 'values to unpack' for data sets built with suppress_uttids=False",
+     {"tags": ["ali:i32"], "utts": [utt("u0", _OK, sp("int32", [2], [0, 1]), None)], "cfg": {"suppress_uttids": False}, "history": _FIX0}),
+    ("KF-C12-2 sos/eos written back", "068efe7", "C12.fix.sticks", "a fixing pass on a data set with sos/eos stored the repaired reference WITH the sos/eos rows",
+     {"tags": ["ref:2d-over1"], "utts": [utt("u0", _OK, None, ref2([[1, 0, 3]]))], "cfg": {"sos": SOS, "eos": EOS}, "history": _FIX1}),
+    ("KF-C12-2 sos/eos written back before a raise", "068efe7", "C12.fix.sticks", "the same, when the pass goes on to raise on a later utterance",
+     {"tags": ["u0/ref:2d-noend", "u1/ref:1d"], "utts": [utt("u0", _OK, None, ref2([[1, 0, -1]])), utt("u1", _OK, None, sp("int64", [1], [1]))], "cfg": {"eos": EOS}, "history": _FIX0}),
+    ("KF-C12-3 tokens_only accepts boundary defects", "068efe7", "C12.val.iff", "with tokens_only=True a (R, 3) reference with start > end passed strict validation",
+     {"tags": ["ref:2d-start>end"], "utts": [utt("u0", _OK, None, ref2([[1, 2, 1]]))], "cfg": {"tokens_only": True}, "history": _STRICT}),
+    ("KF-C12-3 tokens_only loses boundaries", "068efe7", "C12.fix.sticks", "with tokens_only=True an upcast stored the token column only",
+     {"tags": ["ref:2d-i32"], "utts": [utt("u0", _OK, None, ref2([[1, 0, 2]], "int32"))], "cfg": {"tokens_only": True}, "history": _FIX0}),
+    ("KF-C12-5 empty (0,3) reference with eos", "068efe7", "C12.val.iff", "validation raised IndexError on a stored empty (0, 3) reference when sos/eos was configured",
+     {"tags": ["ref:2d-empty"], "utts": [utt("u0", _OK, None, sp("int64", [0, 3]))], "cfg": {"eos": EOS}, "history": _STRICT}),
+    ("KF-C12-9 uint8 reference with sos", "068efe7", "C12.fix.sticks", "the added sos row's -1 wrapped to 255 in a uint8 (R, 3) reference and the fixing pass rejected it",
+     {"tags": ["ref:2d-u8"], "utts": [utt("u0", _OK, None, ref2([[1, 0, 2]], "uint8"))], "cfg": {"sos": SOS}, "history": _FIX0}),
+    ("KF-C12-4 empty 1-D transcript", "db6b5e6", "C12.soseos.inverse", "_load_ref returned an empty 1-D transcript without sos/eos",
+     {"sos": SOS, "eos": EOS, "tokens_only": False, "cls": "spect", "junk": [], "float_hyp": False, "ref": sp("int64", [0])}),
+    ("KF-C12-4 empty (0,3) transcript", "db6b5e6", "C12.soseos.inverse", "_load_ref raised IndexError on an empty (0, 3) transcript",
+     {"sos": None, "eos": EOS, "tokens_only": False, "cls": "lang", "junk": [], "float_hyp": False, "ref": sp("int64", [0, 3])}),
+    ("KF-C12-4 empty (0,3) transcript, tokens only", "db6b5e6", "C12.soseos.inverse", "the same through tokens_only=True",
+     {"sos": SOS, "eos": None, "tokens_only": True, "cls": "spect", "junk": [], "float_hyp": False, "ref": sp("int64", [0, 3])}),
+    ("KF-C12-6 --fix 0 repairs", "6380a03", "C12.info.recount", "get-torch-spect-data-dir-info --fix 0 did not validate: an int32 alignment stayed int32",
+     {"tags": ["ali:i32"], "utts": [utt("u0", _OK, sp("int32", [2], [0, 0]), None)], "mode": "fix", "k": 0}),
+    ("KF-C12-6 --fix 0 rejects", "6380a03", "C12.info.recount", "get-torch-spect-data-dir-info --fix 0 reported on an unrepairable directory",
+     {"tags": ["ali:len1/T=2"], "utts": [utt("u0", _OK, sp("int64", [1], [0]), None)], "mode": "fix", "k": 0}),
+    ("KF-C12-7 empty segment", "9a268cc", "C12.info.recount", "rcount_<i> was -1 as soon as token <i> had an empty segment",
+     {"tags": ["ref"], "utts": [utt("u0", sp("float32", [3, 2]), None, ref2([[1, 0, 3], [1, 1, 1]]))], "mode": "strict", "k": None}),
+    ("KF-C12-7 segment emptied by the fix", "9a268cc", "C12.info.recount", "the same when --fix reduced the end to T == start",
+     {"tags": ["ref:row(2,3)/T=2"], "utts": [utt("u0", _OK, None, ref2([[4, 2, 3]]))], "mode": "fix", "k": 1}),
+    ("KF-C12-8 only empty transcripts", "b62ef4d", "C12.info.recount", "total_tokens was -1 when ref/ held only empty transcripts",
+     {"tags": ["ref1d"], "utts": [utt("u0", sp("float32", [3, 1]), None, sp("int64", [0]))], "mode": "strict", "k": None}),
+]
 
-def _finding(fid, clause, what, cls, witness, pred):
-    """clause: one clause name, or a list (the framework's multi-clause form: 'clauses' + 'witness_clause')"""
-    rec = {"id": fid, "property": "C12", "clause": clause if isinstance(clause, str) else clause[0], "what": what, "class": cls, "witness": witness}
-    if not isinstance(clause, str):
-        rec["clauses"], rec["witness_clause"] = list(clause), clause[0]
-    FINDINGS.append(rec)
-    KNOWN_MATCH[fid] = pred
+
+def check_regression(case):
+    """case: {"name", "fixed_by", "clause", "what", "witness"}; the witness must satisfy its clause's contract"""
+    msg = CHECKERS[case["clause"]](case["witness"])
+    return None if msg is None else "regression of %s (fixed by %s: %s): %s" % (case["name"], case["fixed_by"], case["what"], msg)
 
 
-_BOTH, _h = ["C12.val.iff", "C12.fix.sticks"], [None]  # history of the witnesses: one strict pass
-if True:
-    _finding("KF-C12-1", _BOTH,
-             "validate_spect_data_set unpacks get_utterance_tuple() into exactly (feat, ali, ref): a data set built with suppress_alis=True (2-tuple) or suppress_uttids=False (4-tuple) makes every validation raise ValueError('... values to unpack'), also on a well-formed directory",
-             "data set has suppress_alis=True or suppress_uttids=False (any directory with >= 1 utterance)",
-             {"tags": ["feat:ok"], "utts": [utt("u0", _OK, None, None)], "cfg": {"suppress_alis": True}, "history": _h}, _k_unpack)
-    _finding("KF-C12-3", _BOTH,
-             "validation sees references through the data set's tokens_only view: with tokens_only=True every stored 2-D reference is validated as its token column, so boundary / width / mixed-dimensionality defects are accepted, and a fixing pass that upcasts writes the reference back as a 1-D token list (boundaries lost)",
-             "data set has tokens_only=True and some stored reference is 2-D",
-             {"tags": ["ref:2d-start>end"], "utts": [utt("u0", _OK, None, ref2([[1, 2, 1]]))], "cfg": {"tokens_only": True}, "history": _h}, _k_tokens_only)
-    _finding("KF-C12-5", _BOTH,
-             "validation loads references through _load_ref with the data set's sos/eos: a stored empty (0, 3) reference raises IndexError instead of being accepted (same root as KF-C12-4)",
-             "data set has sos or eos configured and some stored reference has shape (0, 3)",
-             {"tags": ["ref:2d-empty"], "utts": [utt("u0", _OK, None, sp("int64", [0, 3]))], "cfg": {"eos": EOS}, "history": _h}, _k_soseos_empty2d)
-_finding("KF-C12-2", "C12.fix.sticks",
-         "a fixing pass on a data set configured with sos/eos writes every repaired reference back WITH the sos/eos entries the data set added on read, so the stored transcript gains tokens (and gains them again on every later repair)",
-         "data set has sos or eos configured, fix is not None, and some reference file needs a documented repair",
-         {"tags": ["ref:2d-over1"], "utts": [utt("u0", _OK, None, ref2([[1, 0, 3]]))], "cfg": {"sos": SOS, "eos": EOS}, "history": [1, None, 1]}, _k_soseos_written)
-_finding("KF-C12-9", "C12.fix.sticks",
-         "a fixing pass on a data set configured with sos/eos sees a stored uint8 (R, 3) reference with the added sos/eos row, whose 'unknown' boundaries -1 wrap to 255 in uint8: after the documented upcast the row is rejected as out of range "
-         "(same root as KF-C12-2: validation works on the data set's view of the reference, not on the stored tensor)",
-         "data set has sos or eos configured, fix is not None, and some stored reference is a uint8 tensor of shape (R, 3)",
-         {"tags": ["ref:2d-u8"], "utts": [utt("u0", _OK, None, ref2([[1, 0, 2]], "uint8"))], "cfg": {"sos": SOS}, "history": [0, None, 0]}, _k_soseos_uint8)
-_finding("KF-C12-4", "C12.soseos.inverse",
-         "_load_ref builds the sos/eos entries from ref[:1] / ref[0]: an empty 1-D transcript is returned without sos and eos, an empty (0, 3) transcript raises IndexError",
-         "stored transcript is empty (R == 0) and sos or eos is configured",
-         {"sos": SOS, "eos": EOS, "tokens_only": False, "cls": "spect", "junk": [], "float_hyp": False, "ref": sp("int64", [0])}, _k_load_empty)
-_finding("KF-C12-6", "C12.info.recount",
-         "get-torch-spect-data-dir-info --fix 0 neither validates nor repairs: the validate flag is computed as `options.strict or options.fix`, and 0 is falsy",
-         "command line run with --fix 0 on a directory that a strict validation rejects",
-         {"tags": ["ali:i32"], "utts": [utt("u0", _OK, sp("int32", [2], [0, 0]), None)], "mode": "fix", "k": 0}, _k_fix0)
-_finding("KF-C12-7", "C12.info.recount",
-         "rcount_<i> is reported as -1 ('no boundaries') as soon as one token <i> has an EMPTY segment (start == end >= 0, which validation accepts since 0.3.0) instead of adding 0 frames",
-         "some 2-D reference row has start == end >= 0 when the report is made (stored so, or after the end was reduced to T == start)",
-         {"tags": ["ref"], "utts": [utt("u0", sp("float32", [3, 2]), None, ref2([[1, 0, 3], [1, 1, 1]]))], "mode": "strict", "k": None}, _k_rcount_emptyseg)
-_finding("KF-C12-8", "C12.info.recount",
-         "total_tokens is reported as -1 ('no ref/') when ref/ exists but every stored transcript is empty; the recount (sum of R) is 0",
-         "ref/ present and every stored transcript has R == 0",
-         {"tags": ["ref1d"], "utts": [utt("u0", sp("float32", [3, 1]), None, sp("int64", [0]))], "mode": "strict", "k": None}, _k_total_tokens)
+def cases_regression(ctx):
+    for name, commit, clause, what, witness in REGRESSIONS:
+        yield {"name": name, "fixed_by": commit, "clause": clause, "what": what, "witness": witness}
 
 
 CHECKERS = {
@@ -1182,6 +1121,7 @@ CHECKERS = {
     "C12.info.recount": check_info,
     "C12.soseos.inverse": check_soseos,
     "C12.utts.find": check_utts,
+    "C12.regress.fixed": check_regression,
 }
 
 
@@ -1246,6 +1186,11 @@ def run_bounded(ctx):
                           "names in which prefix and suffix would overlap are excluded" % (6 if ctx.quick else 8),
                     text="_utts_in_dir = {x[len(p):len(x)-len(s)] : x startswith p, endswith s}; SpectDataSet.utt_ids = sorted intersection over the sub-directories that are present (and subset_ids); prefix+utt+suffix exists in each",
                     nontrivial=lambda c: bool(c["prefix"] or c["suffix"]), chunk=256, functions=["_datasets._utts_in_dir", "_datasets.SpectDataSet.find_utt_ids"])
+    if _wanted(ctx, "C12.regress.fixed"):
+        ctx.bounded("C12.regress.fixed", check_regression, cases_regression(ctx),
+                    bound="the %d named witnesses of the defects repaired by /repo commits 068efe7, db6b5e6, 6380a03, 9a268cc, b62ef4d (former findings KF-C12-1..9)" % len(REGRESSIONS),
+                    text="each former witness satisfies the contract of the clause that found it (data-set view vs stored tensors, sos/eos around empty transcripts, --fix 0, empty segments in rcount, total_tokens of empty transcripts)",
+                    nontrivial=lambda c: True, chunk=4, functions=fns + ["_datasets._load_ref", "command_line.get_torch_spect_data_dir_info"])
     ctx.replay_known_witnesses()
     ctx.not_applicable.append("condition 1 / fix 1 (CUDA tensors are rejected, or moved to the CPU by a fixing pass): no CUDA device in the sandbox, the branch cannot be executed")
     ctx.not_applicable.append("int8/int16 alignments and references: the documentation names 'bytes or 32-bit integers' as upcastable, the code also upcasts int8 and int16; not generated, left undecided")
